@@ -59,7 +59,7 @@ def observe(classes: list[dict], postponed: bool, lab: Labels) -> list[Any]:
     try:
         out: list[Any] = []
         if mod.error is not None and not isinstance(mod.error, InvalidFieldAnnotations):
-            if type(mod.error).__module__.startswith("mashumaro"):
+            if type(mod.error).__module__.startswith("mashumaro") or _raised_inside(mod.error, "mashumaro"):
                 # the serialization layer cannot handle this annotation at all (e.g. tuple[None, ...]):
                 # a limitation of the third-party library every node class is subject to, not a verdict
                 return [("python-invalid", "mashumaro:" + type(mod.error).__name__)]
@@ -118,6 +118,35 @@ def observe(classes: list[dict], postponed: bool, lab: Labels) -> list[Any]:
         return out
     finally:
         mod.close()
+
+
+def _raised_inside(exc: BaseException, package: str) -> bool:
+    """the innermost frames of the traceback belong to the given third-party package"""
+    tb = exc.__traceback__
+    last = None
+    while tb is not None:
+        last = tb.tb_frame.f_code.co_filename
+        tb = tb.tb_next
+    import os
+
+    return last is not None and (os.sep + package + os.sep) in last or _last_non_stdlib(exc, package)
+
+
+def _last_non_stdlib(exc: BaseException, package: str) -> bool:
+    import os
+    import sysconfig
+
+    stdlib = sysconfig.get_paths()["stdlib"]
+    tb = exc.__traceback__
+    files = []
+    while tb is not None:
+        files.append(tb.tb_frame.f_code.co_filename)
+        tb = tb.tb_next
+    for f in reversed(files):
+        if f.startswith(stdlib) or f.startswith("<frozen"):
+            continue
+        return (os.sep + package + os.sep) in f
+    return False
 
 
 def _subject_src(src: str) -> str:
